@@ -360,8 +360,8 @@ example : ∃ b, (buildExpr { ees := [], classes := [] } (.bin (.int "1") "+" (.
     (by decide)).2.2.1
 
 /-- BODY level, sub-subset `coreB` (statement lists of assignment to a variable / attribute, return, break, continue,
-    control stop, create with / without variable, select from instances, delete, relate / unrelate (+ using), `while`
-    loops and `if` without elif / else over such lists, nested to any depth): in the population of a whole body every key that is
+    control stop, create with / without variable, select from instances, delete, relate / unrelate (+ using), `while` /
+    `for each` loops and `if` without elif / else over such lists, nested to any depth): in the population of a whole body every key that is
     searched backwards — the supertype an R603 / R801 subtype row names, Block_ID (R602) and Previous_Statement_ID
     (R661) of an ACT_SMT, the `if` of an ACT_EL / ACT_E (R682 / R683) — names a row created EARLIER: it exists (no
     dangling key) and the successor relation has no cycle.
@@ -479,6 +479,54 @@ example : (exec (mkEnv { ees := [], classes := [] } demoNd) 20 demoG demoFr stmt
 example : (exec (mkEnv { ees := [], classes := [] } demoNd) 20 demoG demoFr stmtListBodySucceeds).map (·.2.st.pop)
     = some [.blk true, .smt 0 (some 3), .brk 1, .smt 0 none, .con 3] := by decide
 example : stmtListBody ≠ [] := by decide
+
+/-! round 2: statement handlers that need no index renaming, for EVERY fuel ≥ 20 (`n + 20`).  The handler's own
+    ACT_SMT has no predecessor (`buildStmt fc none …`): R661 is written by the statement-list loop above. -/
+
+/-- `accept_BreakNode`: act_smt (R602), ACT_BRK, R603 -/
+theorem break_as_in_source (fc : FCtx) (nd : Node) (g : G) (n : Nat) (hb : BlkOK g.st) :
+    callFn (mkEnv fc nd) (n + 20) accept_BreakNode [.node] [] g
+      = some (.inst (buildStmt fc none .brk g.st).1, { g with st := (buildStmt fc none .brk g.st).2 }) :=
+  break_eq fc nd g n hb
+
+/-- `accept_ContinueNode` -/
+theorem continue_as_in_source (fc : FCtx) (nd : Node) (g : G) (n : Nat) (hb : BlkOK g.st) :
+    callFn (mkEnv fc nd) (n + 20) accept_ContinueNode [.node] [] g
+      = some (.inst (buildStmt fc none .cont g.st).1, { g with st := (buildStmt fc none .cont g.st).2 }) :=
+  continue_eq fc nd g n hb
+
+/-- `accept_ControlNode` -/
+theorem control_stop_as_in_source (fc : FCtx) (nd : Node) (g : G) (n : Nat) (hb : BlkOK g.st) :
+    callFn (mkEnv fc nd) (n + 20) accept_ControlNode [.node] [] g
+      = some (.inst (buildStmt fc none .ctl g.st).1, { g with st := (buildStmt fc none .ctl g.st).2 }) :=
+  control_eq fc nd g n hb
+
+/-- `accept_ReturnNode` without a value (node.expression is None: nothing accepted, `xtuml.relate(act_ret, None, 668)`
+    does nothing).  With a value Flat.lean appends ACT_RET after the value's rows: needs an index renaming, not proved. -/
+theorem return_bare_as_in_source (fc : FCtx) (nd : Node) (g : G) (n : Nat) (hb : BlkOK g.st)
+    (hk : nd.kids.lookup "expression" = none) :
+    callFn (mkEnv fc nd) (n + 20) accept_ReturnNode [.node] [] g
+      = some (.inst (buildStmt fc none (.ret none) g.st).1, { g with st := (buildStmt fc none (.ret none) g.st).2 }) :=
+  return_bare_eq fc nd g n hb hk
+
+/-- `accept_CreateObjectNoVariableNode` for a class in scope (R603, R672 names the class).  For a class that is NOT in scope
+    both sides fail (`ok = false`) but differ in the row: the source never writes R672, Flat.lean stores the key letters. -/
+theorem create_no_variable_as_in_source (fc : FCtx) (nd : Node) (g : G) (n : Nat) (kl : String) (hb : BlkOK g.st)
+    (hk : nd.strs.lookup "key_letter" = some kl) (hc : kl ∈ fc.classes) :
+    callFn (mkEnv fc nd) (n + 20) accept_CreateObjectNoVariableNode [.node] [] g
+      = some (.inst (buildStmt fc none (.createNV kl) g.st).1, { g with st := (buildStmt fc none (.createNV kl) g.st).2 }) :=
+  create_nv_eq fc nd g n kl hb hk hc
+
+/-- applied: a `break` in the outer block of a one-row population -/
+example : (callFn (mkEnv { ees := [], classes := [] } {}) 20 accept_BreakNode [.node] []
+      { st := { pop := [.blk true], scopes := [⟨.blk 0, []⟩] } }).map (·.2.st.pop)
+    = some [.blk true, .smt 0 none, .brk 1] :=
+  (congrArg (Option.map (·.2.st.pop)) (break_as_in_source { ees := [], classes := [] } {} _ 0
+    (by intro b hb; exact ⟨true, by simp [curBlk] at hb; subst hb; rfl⟩))).trans (by decide)
+
+example : (callFn (mkEnv { ees := [], classes := ["DOG"] } { strs := [("key_letter", "DOG")] }) 20
+      accept_CreateObjectNoVariableNode [.node] [] { st := { pop := [.blk true], scopes := [⟨.blk 0, []⟩] } }).map (·.2.st.pop)
+    = some [.blk true, .smt 0 none, .cnv 1 "DOG"] := by decide
 
 end PbShape
 
